@@ -33,6 +33,27 @@ def edge_nonzero(m, a, b):
 
 def guarded_by(m, bb, tested_pred, want_null):
     """Is block bb reachable only through the (null / non-null) edge of an is_null test whose operand satisfies tested_pred?"""
+    if _guarded_graph(m, bb, tested_pred, want_null):
+        return True
+    # path-sensitively: every FEASIBLE path to bb took that edge (the test may sit in a helper that hands back an Option / status which is matched on afterwards)
+    ns = null_switches(m)
+    n = 0
+    for p_ in m.paths(0, bb, 2000):
+        if not m.feasible(p_, getattr(m, "adts_hint", None)):
+            continue
+        n += 1
+        took = False
+        for i_, x in enumerate(p_[:-1]):
+            if x in ns and tested_pred(ns[x][0]):
+                is_null_edge = edge_nonzero(m, x, p_[i_ + 1]) != ns[x][1]
+                if is_null_edge == want_null:
+                    took = True
+        if not took:
+            return False
+    return n > 0
+
+
+def _guarded_graph(m, bb, tested_pred, want_null):
     ns = null_switches(m)
     for sb, (tested, neg) in ns.items():
         if not tested_pred(tested):
@@ -218,7 +239,7 @@ def run(ck, facts):
 
     # --- R3
     f = rt.fn("diplomat_runtime::diplomat_is_str")
-    m = MirFn(f)
+    m = MirFn(C.inline_mir(rt, f))     # with the private helpers it delegates the pointer handling to
     where = C.loc(f)
     is_arg1 = lambda s_: sym_is_arg(s_, 1)
     raw_bbs = [bb for bb, t in m.calls() if RAW_RE.search(C.mir_callee(t) or "")]
@@ -243,6 +264,8 @@ def run(ck, facts):
             inner = sym_peel(v[2][0]) if good else None
             good = good and isinstance(inner, tuple) and inner[0] == "call" and str(inner[1]).endswith("core::str::converts::from_utf8")
             inner2 = sym_peel(inner[2][0]) if good else None
+            if good and m.downcast_payload(inner2) is not None:
+                inner2 = sym_peel(m.downcast_payload(inner2))     # `Some(view)` built by a helper and taken apart again by the caller
 
             def is_view(x):
                 return isinstance(x, tuple) and x[0] == "call" and str(x[1]).endswith("slice::raw::from_raw_parts") and sym_is_arg(x[2][0], 1) and sym_is_arg(x[2][1], 2)
@@ -272,7 +295,7 @@ def run(ck, facts):
     for b, blk in m.cfg.blocks.items():
         if blk.get("cleanup") or blk["term"]["k"] != "switch" or b in ns:
             continue
-        if not guarded_by(m, b, is_arg1, want_null=True):
+        if not guarded_by(m, b, is_arg1, want_null=True) and not m.decided_switch(b, facts.all_adts()):
             stray.append(b)
     calls = [(C.mir_callee(t) or "indirect") for _, t in m.calls()]
     allowed = re.compile(r"(::is_null|slice::raw::from_raw_parts|str::converts::from_utf8|result::Result::is_ok|core::panicking::\w+)$")
